@@ -307,7 +307,8 @@ class Rig:
                 "conn": bool(spa is not None and spa.is_connected), "proto": bool(self.last_spa is not None and self.last_spa._protocol is not None),
                 "desc": m.spa_descriptors is not None,
                 "sensor": m.status_sensor is not None, "radio": m.radio_sensor is not None, "chan": m.channel_sensor is not None,
-                "ident": m._spa_identifier is not None, "name": m._spa_name is not None, "text": self.text()}
+                "ident": m._spa_identifier is not None, "name": m._spa_name is not None, "text": self.text(),
+                "mon": tuple(sorted(self.facades.get(getattr(self, "last_facade", None), {}).items()))}
 
     def show_state(self, outcome):
         s = self.state()
@@ -723,6 +724,12 @@ def run(ctx):
     if where:
         ctx.sample({"schedule": sched_str(where[0][1]), "answers": all_ans[1:3]})
         ctx.sample({"schedule": sched_str(where[-1][1]), "answers": all_ans[where[-1][0] + 1: where[-1][0] + 3]})
+    try:
+        import re
+        rp = re.search(r"resetProg := \[(.*?)\]\n  disconnectProg", (translate.GEN / "LifecycleTable.lean").read_text(), re.S).group(1)
+        ctx.cov["table_has_D7_shape"] = 0 <= rp.find(".clearFacade") < rp.find(".spaDisconnect")
+    except Exception:  # noqa
+        ctx.cov["table_has_D7_shape"] = "unknown"
     ctx.cov["observations"] = dict(STATS)
     ctx.cov["distinct_nontrivial"] = len(seen) + len(conc_shapes)
     ctx.cov["rule"] = ("A: breadth-first over the sampled state of the real manager (state, facade, spa, connected, descriptors, sensors, identifier, name, "
